@@ -8,10 +8,25 @@
     struct RawTs { secs: i64, nanos: u32 }
 
     pub(crate) fn mk_instant(secs: i64, nanos: u32) -> Instant {
-        // std::time::Instant on unix is a (seconds: i64, nanoseconds: u32 < 10^9) pair; the harnesses below only rely on
-        // `checked_duration_since` of values produced here, which they assert explicitly
+        // std::time::Instant on unix is a (seconds: i64, nanoseconds: u32 < 10^9) pair; the failure harness reads the pair back
+        // (raw_of) and checks it against independently computed seconds/nanoseconds, so a different layout would make it fail
         let s: std::time::Instant = unsafe { std::mem::transmute(RawTs { secs, nanos }) };
         Instant::from_std(s)
+    }
+
+    /// the (seconds, nanoseconds) pair inside an Instant
+    fn raw_of(t: Instant) -> (i64, u32) {
+        let r: RawTs = unsafe { std::mem::transmute(t.into_std()) };
+        (r.secs, r.nanos)
+    }
+
+    /// `t` is exactly `now + delay` on the clock's own (seconds, nanoseconds) representation, computed independently of std's Add
+    fn is_now_plus(t: Instant, now: Instant, delay: Duration) -> bool {
+        let (ts, tn) = raw_of(t);
+        let (s0, n0) = raw_of(now);
+        let sum_n: u32 = n0 + delay.subsec_nanos();
+        let carry: i64 = if sum_n >= 1_000_000_000 { 1 } else { 0 };
+        tn == (if carry == 1 { sum_n - 1_000_000_000 } else { sum_n }) && ts == s0 + (delay.as_secs() as i64) + carry
     }
 
     pub(crate) fn stub_now() -> Instant {
@@ -114,14 +129,14 @@
                 assert!(delay.as_secs() == ws && delay.subsec_nanos() == wn);
                 assert!(min <= delay && delay <= max);
                 assert!(bk::min_of(b) == min && bk::max_of(b) == max);
-                assert!(t.checked_duration_since(now) == Some(delay));
+                assert!(is_now_plus(*t, now, delay));
                 assert!(bk::backoff_inv(b));
             }
             (_, AutoTaskState::Failed(b, t)) => {
                 assert!(t0 == 0 || t0 == 1);
                 assert!(bk::last_of(b) == Some(cmin));
                 assert!(bk::min_of(b) == cmin && bk::max_of(b) == cmax);
-                assert!(t.checked_duration_since(now) == Some(cmin));
+                assert!(is_now_plus(*t, now, cmin));
                 assert!(bk::backoff_inv(b));
             }
             _ => assert!(false),
